@@ -76,6 +76,11 @@ pub struct HttpOutcome {
     pub trace_hash: u64,
     pub t_end: u64,
     pub log: Vec<String>,
+    pub board: BTreeMap<String, i64>,
+    pub max_served: usize,
+    pub max_open_accepted: usize,
+    /// ids of the requests the master sent, in order
+    pub sent_ids: Vec<String>,
 }
 
 pub fn config_requests(plan: &HttpPlan) -> Vec<Request> {
@@ -123,6 +128,14 @@ pub fn config_requests(plan: &HttpPlan) -> Vec<Request> {
 
 /// Run the plan on a fresh thread; returns what every party observed.
 pub fn run_http(plan: &HttpPlan, log: bool) -> HttpOutcome {
+    run_http_script(plan, log, None)
+}
+
+pub type MasterScript = Box<dyn FnOnce(&mut Master, Vec<Request>, i64) + Send>;
+
+/// Like `run_http` but with a caller-supplied master script (gets the configuration requests and the
+/// number of clients; must itself set board "configured" and finish with a stop).
+pub fn run_http_script(plan: &HttpPlan, log: bool, script: Option<MasterScript>) -> HttpOutcome {
     let plan = plan.clone();
     netsim::on_fresh_thread(move || {
         let mut w = World::new(plan.seed, plan.sched.clone());
@@ -137,12 +150,16 @@ pub fn run_http(plan: &HttpPlan, log: bool) -> HttpOutcome {
         let settle = plan.settle_ns;
         let reqs = config_requests(&plan);
         let (end, mid) = netsim::run_worker(&mut w, plan.knobs.server_config(), ConfigState::new(), Listeners::default(), |w, m: &mut Master| {
-            m.send_all(reqs);
-            m.push(MOp::Barrier);
-            m.push(MOp::SetBoard("configured".into(), 1));
-            m.push(MOp::WaitBoard("clients_done".into(), nclients));
-            if settle > 0 { m.push(MOp::Sleep(settle)); }
-            m.push(MOp::HardStop);
+            if let Some(script) = script {
+                script(m, reqs, nclients);
+            } else {
+                m.send_all(reqs);
+                m.push(MOp::Barrier);
+                m.push(MOp::SetBoard("configured".into(), 1));
+                m.push(MOp::WaitBoard("clients_done".into(), nclients));
+                if settle > 0 { m.push(MOp::Sleep(settle)); }
+                m.push(MOp::HardStop);
+            }
             for c in &plan.clusters {
                 let mut ids = Vec::new();
                 for (b, mode) in &c.backends {
@@ -169,6 +186,7 @@ pub fn run_http(plan: &HttpPlan, log: bool) -> HttpOutcome {
             let m: &Master = w.actor_ref(mid);
             out.config_finals = m.data.finals.clone();
             out.responses = m.data.responses.clone();
+            out.sent_ids = m.data.sent.iter().map(|(id, _, _)| id.clone()).collect();
         }
         for id in &client_ids {
             let c: &H1Client = w.actor_ref(*id);
@@ -185,6 +203,9 @@ pub fn run_http(plan: &HttpPlan, log: bool) -> HttpOutcome {
         out.stats = w.stats.clone();
         out.trace_hash = w.trace.0;
         out.t_end = w.now;
+        out.board = w.board.clone();
+        out.max_served = w.max_served;
+        out.max_open_accepted = w.max_open_accepted;
         out.log = std::mem::take(&mut w.log);
         out
     })
